@@ -323,9 +323,9 @@ Lemma refuted_lenient_strip :
 Proof. vm_compute. auto. Qed.
 
 Lemma refuted_digit_limit :
-  let h := bytes_of_string "bytes=0-" ++ repeat 57 4301 in
-  range_strict h = false /\ (exists l, rfc_ranges h = Some [FromTo 0 l]) /\ status (render GET ten_bytes (Some h)) = 200.
-Proof. vm_compute. split; [reflexivity|]. split; [eexists; reflexivity|reflexivity]. Qed.
+  let h := bytes_of_string "bytes=" ++ repeat 48 4301 ++ [45] in        (* 4301 zeros, "-" *)
+  range_strict h = false /\ rfc_ranges h = Some [From 0] /\ status (render GET ten_bytes (Some h)) = 200.
+Proof. vm_compute. auto. Qed.
 
 Lemma pins_ok :
   (pin_parse_range_header, pin_render, pin_render_GET, pin_render_HEAD)
